@@ -173,6 +173,7 @@ CONSTANT Kind = "%s"
 CONSTANT NIns = %d
 CONSTANT NPatch = "%s"
 CONSTANT StratMode = "%s"
+CONSTANT NAtoms = %d
 INVARIANT DiffsCorrect
 INVARIANT ChunkShapes
 INVARIANT NoErrorArm
@@ -218,7 +219,7 @@ def nbdime_strategies(kind, st):
     return Strategies(d, transients=tr), d, tr
 
 
-def merge_algo(chk, maxlen, emit, kind="lists", nins=3, npatch="all", strat="none"):
+def merge_algo(chk, maxlen, emit, kind="lists", nins=3, npatch="all", strat="none", natoms=3):
     """Design level: TLC checks the laws on the TLA+ transcription of the list merge (MergeAlgo.tla) for every
     triple of the universe (strat != none: under every strategy configuration of StratU, with the C10 invariants);
     with emit the transcription is compared with nbdime's decisions (model drift)."""
@@ -226,20 +227,20 @@ def merge_algo(chk, maxlen, emit, kind="lists", nins=3, npatch="all", strat="non
     from . import tlc
     from .encode import dec, enc, enc_diff
     mergedrv.quiet_logging()
-    tag = "%s-%d%s" % (kind, maxlen, "" if strat == "none" else "-strat-" + strat)
+    tag = "%s-%d%s%s" % (kind, maxlen, "" if strat == "none" else "-strat-" + strat, "" if natoms == 3 else "-atoms%d" % natoms)
     # PrintT lines are written atomically also with several workers (every line is checked to parse below)
-    r = tlc.run("MergeAlgo", ALGO_CFG % (maxlen, "TRUE" if emit else "FALSE", kind, nins, npatch, strat), workers=common.NCPU,
+    r = tlc.run("MergeAlgo", ALGO_CFG % (maxlen, "TRUE" if emit else "FALSE", kind, nins, npatch, strat, natoms), workers=common.NCPU,
                 timeout=3000, name="MergeAlgo-" + tag, xmx="8g")
     if emit:
         try:
             r.json_lines("MERGE")
         except ValueError:      # a garbled line: print from a single worker
-            r = tlc.run("MergeAlgo", ALGO_CFG % (maxlen, "TRUE", kind, nins, npatch, strat), workers=1,
+            r = tlc.run("MergeAlgo", ALGO_CFG % (maxlen, "TRUE", kind, nins, npatch, strat, natoms), workers=1,
                         timeout=3000, name="MergeAlgo-" + tag + "-w1", xmx="8g")
     if r.invariant_violated or r.error:
         raise tlc.TLCError("MergeAlgo: %s\n%s" % (r.error, "\n".join(l for l in r.out.splitlines() if not l.startswith('"'))[-2500:]))
     chk.add_model(r, "MergeAlgo %s MaxLen=%d (%s)%s" % (kind, maxlen, "every pair of well-formed diffs of every base, NIns=%d NPatch=%s"
-                                                   % (nins, npatch) if kind in ("nested", "strings") else "all triples over 3 atoms",
+                                                   % (nins, npatch) if kind in ("nested", "strings") else "all triples over %d atoms" % natoms,
                                                    "" if strat == "none" else " x strategy configurations '%s'" % strat))
     if not emit:
         return []
@@ -302,8 +303,17 @@ def run():
     chk = Check("C05")
     corp = Corpus(chk)
     r = common.rng("c05")
-    merge_algo(chk, 2, True)
-    merge_algo(chk, 1, True, kind="objects")
+    tdocs = merge_algo(chk, 2, True, natoms=4)
+    tdocs += merge_algo(chk, 1, True, kind="objects", natoms=4)
+    # the triples in which 1 and true both occur (equal for Python's ==, different JSON values) also go through the
+    # real merger in both role orders (clause Symmetric)
+    def mixes(x):
+        vals = list(x.values()) if isinstance(x, dict) else list(x)
+        return any(v is True for v in vals), any(v == 1 and v is not True for v in vals)
+    def both(t):
+        m = [mixes(x) for x in t]
+        return any(a for a, _ in m) and any(b for _, b in m)
+    tdocs = [t for t in tdocs if both(t)]
     if chk.quick:
         ndocs = merge_algo(chk, 1, True, kind="nested", nins=2, npatch="all")
         sdocs = merge_algo(chk, 1, True, kind="strings", nins=2, npatch="all")
@@ -314,6 +324,7 @@ def run():
         sdocs = merge_algo(chk, 1, True, kind="strings", nins=3, npatch="all")
         merge_algo(chk, 2, False, kind="strings", nins=2, npatch="all")
     ndocs = ndocs + [({"s": b}, {"s": l}, {"s": r}) for b, l, r in sdocs]
+    r.shuffle(tdocs)
     r.shuffle(ndocs)
     if chk.quick:
         pairs = corp.pairs(n_enum=220, n_random=60, salt="c05")
@@ -321,7 +332,7 @@ def run():
         models = run_models("quick", chk, universes=[("lists", 2), ("objects", 2), ("strings", 1)])
         gtasks = generic_tasks({u: m[0] for u, m in models.items()}, True, r, 2500)
         gtasks += generic_strategy_law_tasks({u: m[0] for u, m in models.items()}, r, 60)
-        gtasks += triple_tasks("algo-nested", ndocs[:700])
+        gtasks += triple_tasks("algo-nested", ndocs[:700]) + triple_tasks("algo-types", tdocs[:400])
         ntasks = law_tasks(pairs, r, 2) + sym_tasks(triples)
     else:
         pairs = corp.pairs(n_enum=2500, n_random=1500, salt="c05")
@@ -329,7 +340,7 @@ def run():
         models = run_models("thorough", chk, universes=[("lists", 2), ("objects", 2), ("strings", 2), ("nested", 1)])
         gtasks = generic_tasks({u: m[0] for u, m in models.items()}, False, r, 70000)
         gtasks += generic_strategy_law_tasks({u: m[0] for u, m in models.items()}, r, 1500)
-        gtasks += triple_tasks("algo-nested", ndocs)
+        gtasks += triple_tasks("algo-nested", ndocs) + triple_tasks("algo-types", tdocs[:6000])
         ntasks = law_tasks(pairs, r, 4) + sym_tasks(triples)
     events = mergefam.generate(ntasks + gtasks)
     for tid, names in events.meta:
